@@ -197,4 +197,262 @@ theorem C04_leaves_registry (s : SState) (now thr : Int) (h : Inv s.q) (e : Entr
   · rw [hst] at hcalls
     simp [outBase] at hcalls
 
+/-! ## whole histories: no drift -/
+
+/-- **No drift.**  A job with a `SimpleTrigger` of interval `I` whose next fire time is `f0 = x.prio`;
+ANY history of loop steps at arbitrary clock readings (spurious, late within the threshold, out of
+order, interleaved with steps that serve other jobs) in which no step finds the job more than `thr`
+late.  Then the fire times dispatched for the job are exactly `f0, f0 + I, f0 + 2 I, …` — whatever the
+actual clock readings were — each `NextFireTime` call was made with the scheduled fire time (not the
+clock) as argument, and the job sits in the registry with fire time `f0 + k I`. -/
+theorem C04_no_drift (thr I : Int) (s : SState) (hwf : WF s) (x : Entry) (hx : x ∈ s.q.toList)
+    (hxs : x.suspended = false) (htr : s.trig x.tag = .simple I) (evs : List Ev)
+    (hos : OnlySteps evs) (hno : NeverOutdated x.tag (run thr s evs).2) :
+    ∃ k : Nat,
+      dispatchTimes x.tag (run thr s evs).2 =
+        (List.range k).map (fun (i : Nat) => x.prio + (i : Int) * I) ∧
+      (callLog (run thr s evs).2).filter (fun c => c.tag == x.tag) =
+        (List.range k).map (fun (i : Nat) =>
+          (⟨x.tag, x.prio + (i : Int) * I, some (x.prio + (i : Int) * I + I)⟩ : TrigCall)) ∧
+      ({ x with prio := x.prio + (k : Int) * I } : Entry) ∈ (run thr s evs).1.q.toList ∧
+      (run thr s evs).1.trig x.tag = .simple I :=
+  no_drift_aux thr I x.tag evs s x hwf hx hxs rfl htr hos hno
+
+/-- the hypotheses of `C04_no_drift` right after `ScheduleJob` with a simple trigger at clock reading
+`now0`: first fire time `f0 = now0 + I` -/
+theorem C04_no_drift_start (s : SState) (hwf : WF s) (now0 I : Int) (a : SchedArgs)
+    (ha : a.trig = some (.simple I)) (hs : a.suspended = false) (hfresh : AbsentTag a.tag s)
+    (hok : (schedule s now0 a).2.1 = none) :
+    WF (schedule s now0 a).1 ∧ a.entry (now0 + I) ∈ (schedule s now0 a).1.q.toList ∧
+    (a.entry (now0 + I)).suspended = false ∧
+    (schedule s now0 a).1.trig (a.entry (now0 + I)).tag = .simple I := by
+  have hkind : Kind 0 s (.schedule now0 a) (schedule s now0 a).1
+      { err := (schedule s now0 a).2.1, calls := (schedule s now0 a).2.2 } :=
+    apply_kind 0 s hwf.wf0 (.schedule now0 a)
+  have hwf' : WF (schedule s now0 a).1 :=
+    kind_wf hwf (fun t ht e he => by injection ht with ht; subst ht; exact hfresh e he) hkind
+  obtain ⟨t, p, ht, _, hc | hc, hmem, _⟩ := schedule_ok_facts s now0 a hwf.inv hok
+  · rw [hs] at hc; cases hc.1
+  · rw [ha] at ht
+    injection ht with ht
+    subst ht
+    obtain ⟨_, hp, htr, _⟩ := hc
+    have : p = now0 + I := by
+      have : (Trig.fire (.simple I) now0).1 = some (now0 + I) := rfl
+      rw [this] at hp
+      injection hp with hp
+      exact hp.symm
+    subst this
+    exact ⟨hwf', hmem, hs, htr⟩
+
+/-! ## whole histories: a run-once job runs exactly once -/
+
+/-- **Run once.**  `ScheduleJob` at clock reading `now0` with a `RunOnceTrigger` of delay `d` (a new
+trigger object) succeeded: the job is registered with the single fire time `now0 + d`.  Then for EVERY
+continuation `evs` (loop steps at any clock readings, any API calls — later `ScheduleJob`s bring their
+own trigger objects):
+1. the job is dispatched at most once in total, and only for the fire time `now0 + d`; every later call
+   on its trigger answers "no further fire time";
+2. if some step at a clock reading within `[now0 + d, now0 + d + thr]` pops the (active) job, that step
+   dispatches it; in total the job is then dispatched exactly once; afterwards it is never popped,
+   asked or dispatched again, its tag is not in the registry, and its key is not in the registry unless
+   a later `ScheduleJob` brings that key again. -/
+theorem C04_run_once (thr : Int) (s s1 : SState) (calls : List TrigCall) (hwf : WF s) (now0 d : Int)
+    (a : SchedArgs) (ha : a.trig = some (.runOnce d false)) (hs : a.suspended = false)
+    (hfresh : AbsentTag a.tag s) (hsched : schedule s now0 a = (s1, none, calls)) :
+    a.entry (now0 + d) ∈ s1.q.toList ∧ calls = [⟨a.tag, now0, some (now0 + d)⟩] ∧
+    ∀ evs : List Ev, FreshTags evs → FreshFor s1 evs →
+      (dispatchTimes a.tag (run thr s1 evs).2 = [] ∨
+        dispatchTimes a.tag (run thr s1 evs).2 = [now0 + d]) ∧
+      (∀ c ∈ callLog (run thr s1 evs).2, c.tag = a.tag → c.result = none) ∧
+      ∀ (evs1 : List Ev) (now : Int) (evs2 : List Ev), evs = evs1 ++ .step now :: evs2 →
+        ∀ e, (step (run thr s1 evs1).1 now thr).2.popped = some e → e.tag = a.tag →
+          e.suspended = false → now0 + d ≤ now → now ≤ now0 + d + thr →
+          (step (run thr s1 evs1).1 now thr).2.dispatched = true ∧
+          e = a.entry (now0 + d) ∧
+          dispatchTimes a.tag (run thr s1 evs).2 = [now0 + d] ∧
+          (∀ o ∈ (run thr (step (run thr s1 evs1).1 now thr).1 evs2).2, o.quiet a.tag) ∧
+          AbsentTag a.tag (run thr s1 evs).1 ∧
+          ((∀ ev ∈ evs2, ev.schedulesKey a.group a.name = false) →
+            ¬ hasKey (run thr s1 evs).1.q a.group a.name) := by
+  have hs1 : (schedule s now0 a).1 = s1 := by rw [hsched]
+  have hok : (schedule s now0 a).2.1 = none := by rw [hsched]
+  have hcalls : (schedule s now0 a).2.2 = calls := by rw [hsched]
+  have hkind : Kind thr s (.schedule now0 a) (schedule s now0 a).1
+      { err := (schedule s now0 a).2.1, calls := (schedule s now0 a).2.2 } :=
+    apply_kind thr s hwf.wf0 (.schedule now0 a)
+  have hwf1 : WF s1 := by
+    rw [← hs1]
+    exact kind_wf hwf (fun t ht e he => by injection ht with ht; subst ht; exact hfresh e he) hkind
+  -- the state right after the schedule
+  obtain ⟨t, p, ht, _, hc | hc, hmem, _⟩ := schedule_ok_facts s now0 a hwf.inv hok
+  · rw [hs] at hc; cases hc.1
+  rw [ha] at ht
+  injection ht with ht
+  subst ht
+  obtain ⟨_, hp, htr, hcl⟩ := hc
+  have hpe : p = now0 + d := by
+    have : (Trig.fire (.runOnce d false) now0).1 = some (now0 + d) := rfl
+    rw [this] at hp
+    injection hp with hp
+    exact hp.symm
+  subst hpe
+  rw [hs1] at hmem htr
+  rw [hcalls] at hcl
+  have htr1 : s1.trig a.tag = .runOnce d true := htr
+  have hT : ∀ pv, (Trig.runOnce d true).fire pv = (none, .runOnce d true) := fun _ => rfl
+  -- entries with this tag: exactly the new one
+  have hown : ∀ x ∈ s1.q.toList, x.tag = a.tag → x = a.entry (now0 + d) :=
+    fun x hx hxt => hwf1.tags x hx _ hmem hxt
+  refine ⟨hmem, hcl, ?_⟩
+  intro evs hft hff
+  have hns : a.tag ∉ schedTags evs := fun hh => hff a.tag hh _ hmem rfl
+  have hR1 : ∀ x ∈ s1.q.toList, x.tag = a.tag → x.suspended = false → x = a.entry (now0 + d) :=
+    fun x hx hxt _ => hown x hx hxt
+  obtain ⟨r1, r2, _, _⟩ :=
+    run_spent_once thr a.tag (a.entry (now0 + d)) _ hT evs s1 hwf1 hft hff hns htr1 hR1
+  have r1 : dispatchTimes a.tag (run thr s1 evs).2 = [] ∨
+      dispatchTimes a.tag (run thr s1 evs).2 = [now0 + d] := r1
+  refine ⟨r1, r2, ?_⟩
+  intro evs1 now evs2 hevs e hpop het hes hlo hhi
+  subst hevs
+  -- the state before the step
+  obtain ⟨hwf2, hft2, hff2⟩ := run_fresh thr evs1 (.step now :: evs2) s1 hwf1 hft hff
+  have hns1 : a.tag ∉ schedTags evs1 := by
+    rw [schedTags_append] at hns
+    exact fun hh => hns (List.mem_append_left _ hh)
+  have hns2 : a.tag ∉ schedTags evs2 := by
+    rw [schedTags_append, schedTags_cons] at hns
+    exact fun hh => hns (List.mem_append_right _ (List.mem_append_right _ hh))
+  obtain ⟨_, _, htr2, hR2⟩ := run_spent_once thr a.tag (a.entry (now0 + d)) _ hT evs1 s1 hwf1
+    (freshTags_append_left hft) (fun t ht => hff t (by rw [schedTags_append]; exact List.mem_append_left _ ht))
+    hns1 htr1 hR1
+  generalize hs2 : (run thr s1 evs1).1 = s2 at *
+  -- the step
+  have hk2 := apply_kind thr s2 hwf2.wf0 (.step now)
+  have he2 : e ∈ s2.q.toList := kind_pop hk2 _ e rfl hpop
+  have hee : e = a.entry (now0 + d) := hR2 e he2 het hes
+  have hprio : e.prio = now0 + d := by rw [hee]; rfl
+  obtain ⟨_, hacc⟩ := C04_accounted s2 now thr hwf2.inv e hpop hes
+  have hvalid : (step s2 now thr).2.dispatched = true ∧
+      (step s2 now thr).2.calls = [⟨e.tag, e.prio, none⟩] := by
+    rcases hacc with ⟨_, hd, _, _, _, r, hr, hcs, _⟩ | ⟨_, _, _, hlate, _⟩ | ⟨_, _, _, hearly, _⟩
+    · refine ⟨hd, ?_⟩
+      rw [hcs, hr, het, htr2]
+      rfl
+    · omega
+    · omega
+  obtain ⟨hnk, _, hperm, _⟩ := C04_leaves_registry s2 now thr hwf2.inv e hpop ⟨e.prio, hvalid.2⟩
+  have hek : e.group = a.group ∧ e.name = a.name := by rw [hee]; exact ⟨rfl, rfl⟩
+  -- after the step
+  have hwf3 : WF0 (step s2 now thr).1 := kind_wf0 hwf2.wf0 hk2
+  have habs3 : AbsentTag a.tag (step s2 now thr).1 := by
+    intro x hx hxt
+    have := (mem_erase_iff_of_inv hwf2.inv e x).mp (hperm.mem_iff.mp hx)
+    exact this.2 (hwf2.tags x this.1 e he2 (by rw [hxt, het]))
+  obtain ⟨habs4, hquiet⟩ := run_absent thr a.tag evs2 _ hwf3 habs3 hns2
+  have hrun : run thr s1 (evs1 ++ .step now :: evs2) =
+      ((run thr (step s2 now thr).1 evs2).1,
+        (run thr s1 evs1).2 ++ (apply thr s2 (.step now)).2 :: (run thr (step s2 now thr).1 evs2).2) := by
+    rw [run_append, run_cons, hs2]
+    rfl
+  -- the step's own observation dispatches `now0 + d`
+  have hdt : (apply thr s2 (.step now)).2.dispTime? a.tag = some (now0 + d) := by
+    apply (dispTime_some_iff _ _ _).mpr
+    refine ⟨⟨0, e.tag, e.prio⟩, ?_, het, hprio⟩
+    show Obs.disp? { calls := (step s2 now thr).2.calls, out := some (step s2 now thr).2 } 0 = _
+    unfold Obs.disp?
+    simp only [hvalid.1, hpop, if_true]
+  rw [hrun] at r1 ⊢
+  have hexact : dispatchTimes a.tag ((run thr s1 evs1).2 ++
+      (apply thr s2 (.step now)).2 :: (run thr (step s2 now thr).1 evs2).2) = [now0 + d] := by
+    rcases r1 with r1 | r1
+    · rw [dispatchTimes_append, dispatchTimes_cons, hdt] at r1
+      simp at r1
+    · exact r1
+  refine ⟨hvalid.1, hee, hexact, hquiet, habs4, ?_⟩
+  · intro hsk
+    have := run_nokey thr a.group a.name evs2 _ hwf3 (by rw [← hek.1, ← hek.2]; exact hnk) hsk
+    exact this
+
+
+/-- the hypotheses of `C04_run_once` / `C04_no_drift_start` hold at every `ScheduleJob` of every fresh
+history from the empty scheduler -/
+theorem C04_hyps_reachable (thr : Int) (evs0 : List Ev) (now0 : Int) (a : SchedArgs) (evs : List Ev)
+    (hft : FreshTags (evs0 ++ .schedule now0 a :: evs)) :
+    WF (run thr {} evs0).1 ∧ AbsentTag a.tag (run thr {} evs0).1 ∧ FreshTags evs ∧
+      FreshFor (schedule (run thr {} evs0).1 now0 a).1 evs := by
+  obtain ⟨hwf, h2, h3, _⟩ := reachable_split thr evs0 (.schedule now0 a) evs hft
+  obtain ⟨_, _, h5⟩ := run_fresh thr evs0 (.schedule now0 a :: evs) {} wf_empty hft (freshFor_empty _)
+  refine ⟨hwf, ?_, h2, h3⟩
+  intro e he
+  exact h5 a.tag (by rw [schedTags_cons]; exact List.mem_append_left _ (by simp [Ev.schedTag?])) e he
+
+/-! ## non-vacuity -/
+namespace C04Ex
+
+def exA : SchedArgs := { group := "g", name := "a", tag := 1, trig := some (.simple 10) }
+def exB : SchedArgs := { group := "g", name := "b", tag := 2, trig := some (.runOnce 5 false) }
+def exC : SchedArgs := { group := "g", name := "c", tag := 3, trig := some (.fixed 40) }
+
+def exS : SState := (run 3 {} [.schedule 0 exA, .schedule 1 exB]).1
+
+-- `C04_accounted`: the three cases all occur (threshold 3; `g/b` is due at 6, `g/a` at 10)
+example : ((step exS 6 3).2.cls, (step exS 6 3).2.dispatched, (step exS 6 3).2.calls) =
+    (some .valid, true, [⟨2, 6, none⟩]) := by decide +kernel
+example : ((step exS 5 3).2.cls, (step exS 5 3).2.dispatched, (step exS 5 3).2.calls) =
+    (some .notDue, false, []) := by decide +kernel
+example : ((step exS 10 3).2.cls, (step exS 10 3).2.misfired, (step exS 10 3).2.calls) =
+    (some .outdated, true, [⟨2, 10, none⟩]) := by decide +kernel
+-- `C04_leaves_registry`: on time, the run-once job is dispatched and leaves; late, it is reported and leaves
+example : (step exS 6 3).1.q.toList.map (·.name) = ["a"] ∧ (step exS 10 3).1.q.toList.map (·.name) = ["a"] := by
+  decide +kernel
+-- `C04_suspended_untouched`
+example : (step (pause (pause exS true "g" "a").1 true "g" "b").1 50 3).2.popped.map (·.suspended) = some true := by
+  decide +kernel
+
+def exD : SchedArgs := { group := "g", name := "d", tag := 4, trig := some (.simple 36) }
+/-- `C04_no_drift`: job `g/a` (interval 10, first fire time 10) next to `g/d` (fires at 36); steps at 10,
+12 (spurious: not due), 22 (2 late), 5 (clock went back: not due), 33 (3 late = the threshold), 36 (serves
+the other job), 41 (1 late), 41 (not due) -/
+def exSteps : List Ev := [.step 10, .step 12, .step 22, .step 5, .step 33, .step 36, .step 41, .step 41]
+def exS1 : SState := (run 3 {} [.schedule 0 exA, .schedule 0 exD]).1
+example : OnlySteps exSteps := by
+  intro ev hev
+  simp only [exSteps, List.mem_cons, List.not_mem_nil, or_false] at hev
+  rcases hev with rfl | rfl | rfl | rfl | rfl | rfl | rfl | rfl <;> exact ⟨_, rfl⟩
+example : ((run 3 exS1 exSteps).2.map (fun o => (o.out.bind (·.cls), o.out.bind (·.popped) |>.map (·.tag)))) =
+    [(some .valid, some 1), (some .notDue, some 1), (some .valid, some 1), (some .notDue, some 1),
+     (some .valid, some 1), (some .valid, some 4), (some .valid, some 1), (some .notDue, some 1)] := by
+  decide +kernel
+-- the dispatched fire times are 10, 20, 30, 40 although the steps ran at 10, 22, 33, 41
+example : dispatchTimes 1 (run 3 exS1 exSteps).2 = [10, 20, 30, 40] := by decide +kernel
+example : (callLog (run 3 exS1 exSteps).2).filter (fun c => c.tag == 1) =
+    [⟨1, 10, some 20⟩, ⟨1, 20, some 30⟩, ⟨1, 30, some 40⟩, ⟨1, 40, some 50⟩] := by decide +kernel
+
+/-- `C04_run_once`: history after scheduling the run-once job `g/b` at 1 (fire time 6) -/
+def exAfter : List Ev := [.step 4, .schedule 5 exC, .step 7, .step 8, .pause true "g" "a", .step 60]
+example : FreshTags ([.schedule 0 exA, .schedule 1 exB] ++ exAfter) := by decide
+example : dispatchTimes 2 (run 3 exS exAfter).2 = [6] := by decide +kernel
+example : (run 3 exS exAfter).1.q.toList.map (·.name) = ["c", "a"] := by decide +kernel
+
+-- the hypotheses of `C04_no_drift` (state `exS1`, entry of `g/a`) ...
+example : WF exS1 ∧ ({ group := "g", name := "a", prio := 10, tag := 1 } : Entry) ∈ exS1.q.toList ∧
+    exS1.trig 1 = .simple 10 :=
+  ⟨run_wf 3 _ {} wf_empty (by decide) (freshFor_empty _), by decide +kernel, by decide +kernel⟩
+-- ... and of `C04_run_once` / `C04_no_drift_start` (state before the `ScheduleJob` of the run-once job)
+def exS0 : SState := (run 3 {} [.schedule 0 exA]).1
+example : WF exS0 ∧ AbsentTag exB.tag exS0 ∧ exB.trig = some (.runOnce 5 false) ∧
+    ∃ s1 calls, schedule exS0 1 exB = (s1, none, calls) := by
+  refine ⟨run_wf 3 _ {} wf_empty (by decide) (freshFor_empty _), ?_, rfl, _, _,
+    Prod.ext rfl (Prod.ext ?_ rfl)⟩
+  · unfold AbsentTag; decide +kernel
+  · show (schedule exS0 1 exB).2.1 = none
+    decide +kernel
+-- the on-time step of `C04_run_once` (2): at 7 ∈ [6, 6 + 3] the run-once job is popped
+example : (step (run 3 exS [.step 4, .schedule 5 exC]).1 7 3).2.popped.map (·.tag) = some 2 := by
+  decide +kernel
+
+end C04Ex
+
 end Sched
